@@ -18,7 +18,7 @@ EVIDENCE = {
         "the application always declares an exact Content-Length, so every response keeps the connection open unless the request asked to close",
     ],
 }
-OPTS = {"p_v10": 0.08, "p_halfclose": 0.1, "p_late_body": 0.3, "p_expect_run": 0.45}
+OPTS = {"p_v10": 0.08, "p_halfclose": 0.1, "p_late_body": 0.3, "p_expect_run": 0.45, "p_blank": 0.15}
 
 
 def run_one(tapes, tier, scenario=None):
